@@ -17,9 +17,10 @@ impl Clone for Error { #[verifier::external_body] fn clone(&self) -> (r: Self) e
 impl Clone for Member { #[verifier::external_body] fn clone(&self) -> (r: Self) ensures r == *self { unimplemented!() } }
 // spec of the hand-written `impl PartialEq for Identifier` (sliced and VERIFIED against this, not trusted):
 // identifiers are equal iff they resolve to the same declaration, or, when unresolved, sit at the same location
+pub open spec fn identifier_eq(a: Identifier, b: Identifier) -> bool {
+	if a.resolution_id > 0 { a.resolution_id == b.resolution_id } else { location_eq(a.location, b.location) }
+}
 impl vstd::std_specs::cmp::PartialEqSpecImpl for Identifier {
 	open spec fn obeys_eq_spec() -> bool { true }
-	open spec fn eq_spec(&self, o: &Self) -> bool {
-		if self.resolution_id > 0 { self.resolution_id == o.resolution_id } else { location_eq(self.location, o.location) }
-	}
+	open spec fn eq_spec(&self, o: &Self) -> bool { identifier_eq(*self, *o) }
 }
